@@ -39,3 +39,12 @@ Definition opt_beq (a b : option bytes) : bool :=
   | None, None => true
   | _, _ => false
   end.
+
+(** Hex rendering, for queries whose answer the harness reads back. *)
+Definition hexdigit (n : N) : ascii :=
+  ascii_of_N (if n <? 10 then 48 + n else 87 + n).
+Fixpoint hexs (b : bytes) : string :=
+  match b with
+  | [] => EmptyString
+  | x :: r => String (hexdigit (x / 16)) (String (hexdigit (x mod 16)) (hexs r))
+  end.
